@@ -26,7 +26,7 @@ ASSUMPTIONS = [
 ]
 GATES = {
     "odd_column_offset_with_half_integer_disparities": 1, "even_column_offset_with_half_integer_disparities": 1,
-    "crop_touching_an_image_side": 1, "subpix_2": 1, "subpix_4": 1, "cross_checking": 2, "flip_relation_checked": 5, "scene_spanning_two_internal_blocks": 4,
+    "crop_touching_an_image_side": 1, "cbca_distance_1_on_masked_images": 1, "subpix_2": 1, "subpix_4": 1, "cross_checking": 2, "flip_relation_checked": 5, "scene_spanning_two_internal_blocks": 4,
     "interior_pixels_compared": 5000,
 }
 
@@ -46,16 +46,18 @@ def cases(spec, ctx):
         yield {"work": "loc", "part": spec["part"], "i": i}
 
 
-def local_pipeline(rng):
+def local_pipeline(rng, force_cb=None):
     method = ["sad", "ssd", "census", "zncc"][int(rng.integers(0, 4))]
+    if force_cb:
+        method = ["sad", "census"][int(rng.integers(0, 2))]
     w = int(rng.choice([3, 5])) if method == "census" else int(rng.choice([1, 3, 5]))
     subpix = int(rng.choice([1, 2, 4]))
     kinds = ["matching_cost"]
     params = [{"matching_cost_method": method, "window_size": w, "subpix": subpix}]
     rad = w // 2
     cb = None
-    if method != "zncc" and rng.random() < 0.35:
-        cb = int(rng.integers(1, 5))
+    if method != "zncc" and (rng.random() < 0.35 or force_cb):
+        cb = force_cb or int(rng.integers(1, 5))
         kinds.append("aggregation")
         params.append({"aggregation_method": "cbca", "cbca_distance": cb, "cbca_intensity": float(rng.choice([5.0, 30.0]))})
         rad += 2 * cb + 2
@@ -95,7 +97,9 @@ def crop_ds(ds, r0, r1, c0, c1):
 
 def run_case(case, ctx):
     rng = ctx.rng("loc", case["part"], case["i"])
-    keys, params, rad, subpix, validation = local_pipeline(rng)
+    # directed constructor: the smallest legal arm length (cbca_distance 1, then 2) on masked images
+    force_cb = [1, 2][case["part"] % 2] if case["i"] == 0 else None
+    keys, params, rad, subpix, validation = local_pipeline(rng, force_cb)
     dlt = int(rng.integers(1, 6))
     a, b = [(-dlt, dlt), (-dlt, 0), (0, dlt), (-dlt, max(0, dlt - 2)), (-dlt, -1), (1, dlt)][int(rng.integers(0, 6))]
     delta = max(abs(a), abs(b))
@@ -120,8 +124,9 @@ def run_case(case, ctx):
         # cbca accumulates float32 integral images: squared half-/quarter-integer differences stay exactly
         # representable (origin-independent sums) only for a small radiometric range
         L, R = np.floor(L / 16), np.floor(R / 16)
-    lm = gen.mask(rng, rows, cols, ["sparse", "exotic", "stripes"][int(rng.integers(0, 3))]) if rng.random() < 0.4 else None
-    rm = gen.mask(rng, rows, cols, ["sparse", "exotic"][int(rng.integers(0, 2))]) if rng.random() < 0.3 else None
+    lm = gen.mask(rng, rows, cols, ["sparse", "exotic", "stripes"][int(rng.integers(0, 3))]) if (rng.random() < 0.4 or force_cb) else None
+    rm = gen.mask(rng, rows, cols, ["sparse", "exotic"][int(rng.integers(0, 2))]) if (rng.random() < 0.3 or force_cb) else None
+    ctx.gate("cbca_distance_1_on_masked_images", int(force_cb == 1))
     left = gen.make_dataset(L, (a, b), lm)
     right = gen.make_dataset(R, None, rm)
     pipe = pipes.build_pipe(keys, params)
